@@ -954,15 +954,43 @@ pub fn witnesses() -> Vec<Case> {
     out
 }
 
+/// a chain of `depth` nested groups below the root; both replicas add a group at the bottom and the
+/// source renames a group half-way down: every lookup by UUID has to descend the whole chain
+fn deep_chain(rng: &mut Rng) -> Case {
+    let depth = rng.range(26, 60) as u128;
+    let build = |extra: u128, t_extra: i64| -> Database {
+        let mut bottom = plain_group(depth + 1, 1001 + depth as i64);
+        bottom.children.push(Node::Group(plain_group(extra, t_extra)));
+        let mut g = bottom;
+        for id in (2..=depth).rev() {
+            let mut p = plain_group(id, 1000 + id as i64);
+            p.children.push(Node::Group(g));
+            g = p;
+        }
+        let mut db = Database::new(Default::default());
+        db.root = plain_group(1, 1001);
+        db.root.children.push(Node::Group(g));
+        db
+    };
+    let d = build(9001, 2001);
+    let mut s = build(9002, 2002);
+    let mid = Uuid::from_u128(2 + depth / 2);
+    if let Some(g) = group_mut(&mut s.root, mid) {
+        g.name = "renamed".into();
+        g.times.set_last_modification(mk_time(2003));
+    }
+    Case { dest: d, src: s, ops: vec!["d:add-group".into(), "s:add-group".into(), "s:rename-group".into()] }
+}
+
 pub fn run(args: &Args) {
     let prop = args.prop.clone();
     let n = args.n(4_000, 150_000);
     let mut agg = Aggregate::new();
     let now = chrono::Utc::now().timestamp();
     let nw = witnesses().len() as u64;
-    for (stream, max_ops, subtree, count) in [("witness", 0u64, false, nw), ("pairs", 8u64, false, n / 2), ("pairs-subtree-delete", 10u64, true, n / 2)] {
+    for (stream, max_ops, subtree, count) in [("witness", 0u64, false, nw), ("deep-chain", 0u64, false, args.n(6, 60)), ("pairs", 8u64, false, n / 2), ("pairs-subtree-delete", 10u64, true, n / 2)] {
         run_cases(&mut agg, args, stream, count, |i, rng, model| {
-            let c = if stream == "witness" { witnesses().swap_remove(i as usize) } else { gen_case(rng, max_ops, subtree) };
+            let c = if stream == "witness" { witnesses().swap_remove(i as usize) } else if stream == "deep-chain" { deep_chain(rng) } else { gen_case(rng, max_ops, subtree) };
             let mut int = Interner::new();
             let input = format!("(merge {} {} {})", now, db_term(&mut int, &c.dest), db_term(&mut int, &c.src));
             let r = run_merge(&c.dest, &c.src);
@@ -993,7 +1021,7 @@ pub fn run(args: &Args) {
     write_report(
         args,
         &agg,
-        "random well-formed ancestors (depth <= 3, unique UUIDs, every node with modification and location times, entries with committed histories) x two independent edit histories of total length 0..10 over {edit entry + commit, add entry, add group, move entry, move group, delete entry + tombstone, delete empty group + tombstone, delete subtree with tombstones parent-first or child-first, rename group} under one logical clock with pairwise distinct seconds; non-trivial = the merge reports at least one event; distinct = distinct (destination, source) text",
+        "stream deep-chain: a chain of 26..60 nested groups, a group added at the bottom in both replicas, a rename half-way down (each merge under a 5 s watchdog); streams pairs: random well-formed ancestors (depth <= 3, unique UUIDs, every node with modification and location times, entries with committed histories) x two independent edit histories of total length 0..10 over {edit entry + commit, add entry, add group, move entry, move group, delete entry + tombstone, delete empty group + tombstone, delete subtree with tombstones parent-first or child-first, rename group} under one logical clock with pairwise distinct seconds; non-trivial = the merge reports at least one event; distinct = distinct (destination, source) text",
         serde_json::json!({}),
     );
 }
